@@ -3,6 +3,7 @@ package datamodel
 import (
 	"errors"
 	"fmt"
+	"math"
 )
 
 // Copy does an explicit shallow copy of a Node's data into a NodeAssembler.
@@ -37,6 +38,18 @@ func Copy(n Node, na NodeAssembler) error {
 		}
 		return na.AssignBool(v)
 	case Kind_Int:
+		if un, ok := n.(UintNode); ok {
+			// A UintNode may hold a value above the int64 range; there is no
+			// primitive to assign that, only the node itself can carry it.
+			v, err := un.AsUint()
+			if err != nil {
+				return fmt.Errorf("node violated contract: promised to be %v kind, but AsUint method returned %w", n.Kind(), err)
+			}
+			if v > math.MaxInt64 {
+				return na.AssignNode(n)
+			}
+			return na.AssignInt(int64(v))
+		}
 		v, err := n.AsInt()
 		if err != nil {
 			return fmt.Errorf("node violated contract: promised to be %v kind, but AsInt method returned %w", n.Kind(), err)
